@@ -50,6 +50,7 @@ class Sched:
         self.preemptions = 0
         self.aborted = False
         self.clock = 0
+        self.gaps = []           # names the code under test asked of the models below that they do not cover
 
     # -- called by the harness (main thread) ------------------------------------------------
     def spawn(self, name, fn):
@@ -142,19 +143,36 @@ class Sched:
         return self.clock
 
 
+class ModelGap(AttributeError):
+    """the code under test used a lock / future / executor name these models do not cover: a harness gap, never a verdict"""
+
+
 class SLock:
     def __init__(self, sched, name='lock'):
         self.sched = sched
         self.name = name
         self.owner = None
 
+    def __getattr__(self, name):
+        if name.startswith('_'):
+            raise AttributeError(name)
+        self.sched.gaps.append('Lock.' + name)
+        raise ModelGap('Lock.' + name)
+
     def acquire(self, blocking=True, timeout=-1):
         self.sched.yield_point('acquire ' + self.name)
-        self.sched.block_until(lambda: self.owner is None, self.name)
+        if not blocking:
+            if self.owner is not None:
+                return False
+        else:
+            # a timeout is not modelled as expiring: waiting forever is reported as a deadlock by the scheduler
+            self.sched.block_until(lambda: self.owner is None, self.name)
         self.owner = self.sched.me()
         return True
 
     def release(self):
+        if self.owner is None:
+            raise RuntimeError('release unlocked lock')
         self.owner = None
         self.sched.yield_point('release ' + self.name)
 
@@ -171,27 +189,74 @@ class SLock:
 
 
 class SFuture:
+    """concurrent.futures.Future as the code under test sees it (a submitted task cannot be cancelled once it exists as a
+    scheduler task, which is what ThreadPoolExecutor does for a task a worker has picked up)"""
+
     def __init__(self, sched):
         self.sched = sched
         self._done = False
+        self._started = False
         self._result = None
         self._error = None
+        self._callbacks = []
+
+    def __getattr__(self, name):
+        if name.startswith('_'):
+            raise AttributeError(name)
+        self.sched.gaps.append('Future.' + name)
+        raise ModelGap('Future.' + name)
 
     def done(self):
         return self._done
 
-    def result(self, timeout=None):
+    def running(self):
+        return self._started and not self._done
+
+    def cancelled(self):
+        return False
+
+    def cancel(self):
+        return False
+
+    def _wait(self):
         self.sched.yield_point('future.result')
         self.sched.block_until(lambda: self._done, 'future')
+
+    def result(self, timeout=None):
+        self._wait()
         if self._error is not None:
             raise self._error
         return self._result
+
+    def exception(self, timeout=None):
+        self._wait()
+        return self._error
+
+    def add_done_callback(self, fn):
+        if self._done:
+            fn(self)
+        else:
+            self._callbacks.append(fn)
+
+    def _finish(self):
+        self._done = True
+        for fn in self._callbacks:
+            try:
+                fn(self)
+            except Exception:  # noqa: as concurrent.futures does, a failing callback is logged and ignored
+                pass
 
 
 class SExecutor:
     def __init__(self, sched):
         self.sched = sched
         self.count = 0
+
+    def __getattr__(self, name):
+        if name.startswith('_'):
+            raise AttributeError(name)
+        self.sched.gaps.append('Executor.' + name)
+        raise ModelGap('Executor.' + name)
 
     def submit(self, fn, *args, **kwargs):
         fut = SFuture(self.sched)
@@ -200,13 +265,14 @@ class SExecutor:
 
         def body():
             self.sched.yield_point('task start')
+            fut._started = True
             try:
                 fut._result = fn(*args, **kwargs)
             except SystemExit:
                 raise
             except BaseException as e:  # noqa
                 fut._error = e
-            fut._done = True
+            fut._finish()
             return None
         self.sched.spawn(name, body)
         self.sched.yield_point('submit')
